@@ -213,6 +213,41 @@ func c19LineShape(c *Ctx) {
 			case "fmt.Sprintf":
 				f, _ := constString(arg(x, 0))
 				return []tok{{"fmt", f}}
+			case "strconv.FormatInt":
+				// decimal text of the field's own int value, taken through reflect or a conversion
+				if base, isC := constInt(arg(x, 1)); !isC || base != 10 {
+					break
+				}
+				raw := strip(arg(x, 0))
+				if cv, ok := raw.(*ssa.Convert); ok {
+					raw = strip(cv.X)
+				}
+				if ic, ok := raw.(*ssa.Call); ok && calleeName(ic) == "(reflect.Value).Int" {
+					if vo, ok := strip(recvOf(ic)).(*ssa.Call); ok && calleeName(vo) == "reflect.ValueOf" {
+						if fv, ok := strip(arg(vo, 0)).(*ssa.Call); ok && calleeName(fv) == "(*"+structsPkg+".Field).Value" {
+							return []tok{{"fmt", "%d"}}
+						}
+					}
+				}
+				if ex, ok := raw.(*ssa.Extract); ok && ex.Index == 0 {
+					raw = ex.Tuple
+				}
+				if ta, ok := raw.(*ssa.TypeAssert); ok {
+					if call, ok := strip(ta.X).(*ssa.Call); ok && calleeName(call) == "(*"+structsPkg+".Field).Value" {
+						return []tok{{"fmt", "%d"}}
+					}
+				}
+			case "strconv.Itoa":
+				// decimal text of the field's own int value: what "%d" prints
+				raw := strip(arg(x, 0))
+				if ex, ok := raw.(*ssa.Extract); ok && ex.Index == 0 {
+					raw = ex.Tuple
+				}
+				if ta, ok := raw.(*ssa.TypeAssert); ok {
+					if call, ok := strip(ta.X).(*ssa.Call); ok && calleeName(call) == "(*"+structsPkg+".Field).Value" {
+						return []tok{{"fmt", "%d"}}
+					}
+				}
 			}
 		}
 		// the field's own value: f.Value().(string)
@@ -615,6 +650,41 @@ func c19Letters(c *Ctx) {
 			good = false
 		}
 		c.Check(good, rule, "Marshal format "+strconv.Quote(f), ci.Pos(), "letter "+letter+" with value "+val+" is accepted and inverted by Unmarshal", "Marshal writes "+strconv.Quote(f)+" which Unmarshal does not read back to the same value")
+	}
+	// the same lines written piecewise: b.WriteString(key); b.WriteString(":i:1") / ":i:0" / ":i:" +
+	// decimal digits / ":s:" + the string
+	if n == 0 {
+		hasDecimal := len(callsTo(ma, "strconv.AppendInt", "strconv.Itoa", "strconv.FormatInt")) > 0
+		hasRawString := false
+		for _, ci := range callsTo(ma, "(*bytes.Buffer).WriteString", "(*strings.Builder).WriteString") {
+			if _, isC := constString(arg(ci, 0)); !isC {
+				hasRawString = true
+			}
+		}
+		for _, ci := range callsTo(ma, "(*bytes.Buffer).WriteString", "(*strings.Builder).WriteString") {
+			f, ok := constString(arg(ci, 0))
+			if !ok || len(f) < 3 || f[0] != ':' || f[2] != ':' {
+				continue
+			}
+			n++
+			letter, val := f[1:2], f[3:]
+			good := accepted[letter]
+			switch letter {
+			case "i":
+				good = good && intViaAtoi && (val == "1" || val == "0" || val == "" && hasDecimal)
+			case "s":
+				good = good && val == "" && hasRawString
+			default:
+				good = false
+			}
+			shown := "%s" + f
+			if val == "" && letter == "i" {
+				shown += "%d"
+			} else if val == "" {
+				shown += "%s"
+			}
+			c.Check(good, rule, "Marshal format "+strconv.Quote(shown), ci.Pos(), "letter "+letter+" with value "+val+" is accepted and inverted by Unmarshal", "Marshal writes "+strconv.Quote(f)+" which Unmarshal does not read back to the same value")
+		}
 	}
 	// line terminator
 	crlf := false
